@@ -124,3 +124,72 @@ Proof.
   destruct (keys_of_found c [] k Hk) as [i Hi]. unfold idx. rewrite Hi.
   destruct (index_of_nth _ _ _ _ d Hi) as [_ Hn]. rewrite Nat.sub_0_r in Hn. apply Hr. exact Hn.
 Qed.
+
+(* ---- the truth table enumerated by the run is complete ---- *)
+Section Mask.
+Local Open Scope N_scope.
+
+Fixpoint mk (asg : nat -> bool) (n : nat) : N :=
+  match n with O => 0 | S k => mk asg k + (if asg k then 2 ^ N.of_nat k else 0) end.
+
+Lemma mk_bound asg n : mk asg n < 2 ^ N.of_nat n.
+Proof.
+  induction n as [| k IH]; cbn [mk]; [reflexivity|].
+  rewrite Nat2N.inj_succ, N.pow_succ_r'. destruct (asg k); lia.
+Qed.
+
+Lemma bit_low a k i : i < k -> N.testbit (a + 2 ^ k) i = N.testbit a i.
+Proof.
+  intros H. rewrite <- (N.mod_pow2_bits_low (a + 2 ^ k) k i H), <- (N.mod_pow2_bits_low a k i H).
+  f_equal. replace (a + 2 ^ k) with (a + 1 * 2 ^ k) by lia. apply N.mod_add. apply N.pow_nonzero. discriminate.
+Qed.
+Lemma bit_top a k : a < 2 ^ k -> N.testbit (a + 2 ^ k) k = true /\ N.testbit a k = false.
+Proof.
+  intros H. assert (Hz : 2 ^ k <> 0) by (apply N.pow_nonzero; discriminate). split.
+  - pose proof (N.div_pow2_bits (a + 2 ^ k) k 0) as E. rewrite N.add_0_l in E. rewrite <- E.
+    replace (a + 2 ^ k) with (a + 1 * 2 ^ k) by lia. rewrite N.div_add by exact Hz. rewrite N.div_small by exact H. reflexivity.
+  - pose proof (N.div_pow2_bits a k 0) as E. rewrite N.add_0_l in E. rewrite <- E. rewrite N.div_small by exact H. reflexivity.
+Qed.
+
+Lemma mk_bits asg n i : (i < n)%nat -> N.testbit (mk asg n) (N.of_nat i) = asg i.
+Proof.
+  induction n as [| k IH]; intros H; [lia|]. cbn [mk].
+  destruct (Nat.eq_dec i k) as [-> | Hne].
+  - destruct (bit_top (mk asg k) (N.of_nat k) (mk_bound asg k)) as [Ht Hf].
+    destruct (asg k); [exact Ht | rewrite N.add_0_r; exact Hf].
+  - assert (Hi : (i < k)%nat) by lia. destruct (asg k).
+    + rewrite bit_low by lia. apply IH. exact Hi.
+    + rewrite N.add_0_r. apply IH. exact Hi.
+Qed.
+
+(* every assignment of the first n numbers is the reading of a mask below 2^n *)
+Theorem asg_mask (asg : nat -> bool) (n : nat) :
+  exists m : nat, In m (seq 0 (Nat.pow 2 n)) /\ forall i, (i < n)%nat -> N.testbit (N.of_nat m) (N.of_nat i) = asg i.
+Proof.
+  exists (N.to_nat (mk asg n)). split.
+  - apply in_seq. split; [lia|]. cbn [plus]. pose proof (mk_bound asg n) as H.
+    assert (E : N.of_nat (2 ^ n)%nat = 2 ^ N.of_nat n) by (rewrite Nat2N.inj_pow; reflexivity). lia.
+  - intros i Hi. rewrite N2Nat.id. apply mk_bits. exact Hi.
+Qed.
+End Mask.
+
+Lemma index_of_lt k l s i : index_of k l s = Some i -> i < s + length l.
+Proof.
+  revert s. induction l as [| x r IH]; cbn [index_of length]; intros s H; [discriminate|].
+  destruct (akey_eqb k x); [injection H as <-; lia | apply IH in H; lia].
+Qed.
+
+(* For every valuation of the reference predicates there is a row m < 2^n of the enumerated table (n the
+   number of distinct predicates) whose assignment - bit i of m for number i, as in Run/C01run.v asg_of - gives
+   the numbered reference the value the combination of predicates has under the valuation. *)
+Theorem ref_table_complete c val : respects val ->
+  let ks := keys_of c [] in
+  exists m, In m (seq 0 (Nat.pow 2 (length ks))) /\
+    rden val c = den (fun a => N.testbit (N.of_nat m) (N.of_nat a)) (number ks c).
+Proof.
+  intros Hr ks. set (d := YNull []). set (asgv := fun i => val (nth i ks d)).
+  destruct (asg_mask asgv (length ks)) as [m [Hin Hb]]. exists m. split; [exact Hin|].
+  rewrite (ref_valuations c val d Hr). fold ks. fold asgv. rewrite !number_den.
+  apply rden_ext. intros k Hk. destruct (keys_of_found c [] k Hk) as [i Hi]. fold ks in Hi.
+  unfold idx. rewrite Hi. symmetry. apply Hb. apply index_of_lt in Hi. lia.
+Qed.
